@@ -22,8 +22,8 @@ import ast
 
 from .core import AnalysisError
 from .astutil import unparse
-from .facts import Closure
-from .bitcells import (Unsupported, Param, View, Bits, CU32, ModVal, Maybe, TableVal, Opaque, FuncValue, TOP, PCell, Cell, Obj,
+from .facts import Closure, Partial
+from .bitcells import (Unsupported, Param, View, Bits, CU32, ModVal, Maybe, TableVal, Opaque, FuncValue, TOP, PCell, Cell, Obj, PartialValue,
                        merge_cells, INF)
 from .bitstate import State, Joiner, model_of, UNIVERSE
 from .bitexpr import ExprMixin
@@ -52,6 +52,7 @@ class Interp(ExprMixin, CallMixin, StmtMixin, ObjMixin, LinMixin, Joiner):
         self.reg_tables = set()
         self.src_table = {}
         self.notes = set()
+        self.letter_forms = {}          # parameter -> {'map': {letter: value}, 'distinct', 'how'} for letter-set spellings
         self.coerced = set()            # parameters that went through int(x, base=0)
         self.lookup_normalised = {}     # register parameter -> was it converted before its first table lookup
 
@@ -75,6 +76,7 @@ class Summary:
         self.overlaps = interp.overlaps
         self.problems = list(interp.problems)
         self.notes = sorted(interp.notes)
+        self.letter_forms = dict(interp.letter_forms)
         self.lookup_normalised = dict(interp.lookup_normalised)
         self.imprecise = (state.imprecise or state.forks != UNIVERSE) if state is not None else False
         top = {}
@@ -237,3 +239,42 @@ def summarise_binding(facts, mnemonic, binding_name=None):
     except RecursionError:
         raise AnalysisError('{} ({} via {}): construct outside the abstract domain: recursion too deep'.format(
             mnemonic, part.name, func_name))
+
+
+def resolve_built_tables(facts):
+    """Module-level dict tables produced by a call of a pure module function (REGISTERS = build_registers()) are evaluated by
+    the interpreter and entered into the program model like dict literals, so that every engine reading facts.tables /
+    facts.consts sees them.  Anything the interpreter does not understand is left alone."""
+    if getattr(facts, '_bitdom_tables_done', False):
+        return
+    facts._bitdom_tables_done = True
+    if not hasattr(facts, 'assign_nodes') or not hasattr(facts, 'tables'):
+        return
+    interp = None
+    for name, node in list(facts.assign_nodes.items()):
+        if name in facts.consts or name in facts.tables or name in facts.partials:
+            continue
+        if not (isinstance(node, ast.Assign) and isinstance(node.value, ast.Call) and isinstance(node.value.func, ast.Name)
+                and node.value.func.id in facts.funcs):
+            continue
+        if interp is None:
+            interp = Interp(facts)
+        if not interp.model.stable(name):
+            continue
+        try:
+            v = interp.module_value(name)
+        except (AnalysisError, RecursionError):
+            continue
+        if isinstance(v, PartialValue) and v.func.cenv is None and facts.funcs.get(getattr(v.func.fdef, 'name', None)) is v.func.fdef \
+                and all(isinstance(x, (int, str, type(None))) for x in v.kwargs.values()):
+            # NAME = helper(...) where the helper returns partial(encoder, k=const, ...): a binding like any other
+            facts.partials[name] = Partial(name, v.func.fdef.name, dict(v.kwargs), node)
+            facts.closures.pop(name, None)
+            continue
+        if isinstance(v, dict) and v and all(isinstance(k, (int, str)) and not isinstance(k, bool) for k in v) \
+                and all(isinstance(x, (int, str, type(None))) for x in v.values()):
+            facts.tables[name] = dict(v)
+            facts.consts[name] = dict(v)
+            facts.table_nodes[name] = node
+            facts.closures.pop(name, None)
+            interp.model.values.pop(name, None)
